@@ -113,6 +113,61 @@ func genC06(r *simrt.Rand, idx int, tier string) ConcCase {
 		id++
 		c.Init = append(c.Init, Op{K: "set", Key: c.Keys[0], ID: id, Size: smallSize(r)})
 	}
+	if idx%13 == 11 {
+		// several clients list the keys again and again while a writer adds new keys (and removes
+		// one): a listing that STARTS after a Set was acknowledged contains that key, whoever else is
+		// listing at the moment
+		id0 := id
+		var w []Op
+		for k := 0; k < 2+r.Intn(3); k++ {
+			id++
+			key := fmt.Sprintf("fresh-%d", id-id0)
+			c.Keys = append(c.Keys, key)
+			w = append(w, Op{K: "set", Key: key, ID: id, Size: 9 + r.Intn(40)}, Op{K: "keys"})
+			if r.Intn(3) == 0 {
+				w = append(w, Op{K: "yield", N: r.Intn(20)})
+			}
+		}
+		if len(c.Init) > 0 && r.Intn(2) == 0 {
+			w = append(w, Op{K: "del", Key: c.Init[0].Key}, Op{K: "keys"})
+		}
+		c.Clients = append(c.Clients, w)
+		for p := 0; p < 1+r.Intn(2); p++ {
+			var ops []Op
+			for k := 0; k < 2+r.Intn(4); k++ {
+				ops = append(ops, Op{K: "keys"})
+				if r.Intn(2) == 0 {
+					ops = append(ops, Op{K: "yield", N: r.Intn(15)})
+				}
+			}
+			c.Clients = append(c.Clients, ops)
+		}
+		c.Sched = genSched(r, 300)
+		c.Sched.MaxSteps = 600_000
+		return c
+	}
+	if idx%13 == 3 {
+		// two clients hold the same transaction handle and end it at the same time (Commit and
+		// Rollback, or two Commits - a client whose first call timed out tries again): whichever comes
+		// first decides, the other finds the transaction gone
+		hot := c.Keys[0]
+		id++
+		c.Init = append(c.Init, Op{K: "begin", Tx: 1, Level: r.Intn(4)}, Op{K: "set", Tx: 1, Key: hot, ID: id, Size: 9 + r.Intn(40)})
+		if r.Intn(2) == 0 {
+			id++
+			c.Init = append(c.Init, Op{K: "set", Tx: 1, Key: c.Keys[len(c.Keys)-1], ID: id, Size: 9 + r.Intn(40)})
+		}
+		enders := [][]string{{"commit", "rollback"}, {"commit", "commit"}, {"commit", "rollback", "commit"}}[r.Intn(3)]
+		for _, k := range enders {
+			c.Clients = append(c.Clients, []Op{{K: "yield", N: r.Intn(6)}, {K: k, Tx: 1}, {K: "get", Key: hot}})
+		}
+		if r.Intn(2) == 0 {
+			c.Clients = append(c.Clients, []Op{{K: "get", Key: hot}, {K: "keys"}})
+		}
+		c.Sched = genSched(r, 150)
+		c.Sched.MaxSteps = 600_000
+		return c
+	}
 	if idx%13 == 7 {
 		// transactions that end while others make their first write: 1-2 transactions that have
 		// written already only end (commit or rollback) in the concurrent phase; 1-2 transactions
@@ -371,6 +426,33 @@ func checkC06(c ConcCase, cr *concRun, out *RunOut) *Violation {
 			}
 		}
 	}
+	// transactions that more than one client ends (Commit/Rollback through one shared handle)
+	enders := map[int]map[int]bool{}
+	for _, e := range cr.hist {
+		if e.Op.K == "commit" || e.Op.K == "rollback" {
+			if enders[e.Op.Tx] == nil {
+				enders[e.Op.Tx] = map[int]bool{}
+			}
+			enders[e.Op.Tx][e.Client] = true
+		}
+	}
+	shared := map[int]bool{}
+	for tx, cl := range enders {
+		if len(cl) > 1 {
+			shared[tx] = true
+		}
+	}
+	for tx := range shared {
+		won := 0
+		for _, e := range cr.hist {
+			if e.Op.K == "commit" && e.Op.Tx == tx && e.Class == "" {
+				won++
+			}
+		}
+		if won > 1 {
+			return &Violation{Class: "two-winners", Signature: "C06|two-enders-won", Detail: fmt.Sprintf("%d Commit calls on one transaction (slot %d) returned nil", won, tx-1)}
+		}
+	}
 	for _, e := range cr.hist {
 		switch e.Op.K {
 		case "get", "getr":
@@ -406,6 +488,9 @@ func checkC06(c ConcCase, cr *concRun, out *RunOut) *Violation {
 				}
 			}
 		case "set", "setr", "create", "del", "begin", "commit", "rollback":
+			if e.Op.K == "commit" && e.Class == "ErrTxNotFound" && shared[e.Op.Tx] {
+				break // another client ended the transaction first
+			}
 			if e.Class != "" && !(e.Op.K == "commit" && e.Class == "ErrTxSerialization") {
 				return &Violation{Class: "error-class", Signature: "C06|error-class|" + e.Op.K + "|" + e.Class,
 					Detail: fmt.Sprintf("client%d %s [%d..%d] failed: %s", e.Client, e.Op, e.Call, e.Ret, e.Err)}
@@ -418,6 +503,21 @@ func checkC06(c ConcCase, cr *concRun, out *RunOut) *Violation {
 	}
 	switch porcupine.CheckOperationsTimeout(linModel, ops, linTimeout()) {
 	case porcupine.Illegal:
+		if len(shared) > 0 {
+			// classification only (both are violations): the OUTCOME of the race between the enders
+			// (who won, what is in place afterwards) or only the moment at which it became visible?
+			var outcome []porcupine.Operation
+			for _, op := range ops {
+				k := op.Input.(Op).K
+				if op.ClientId == 0 || (k != "get" && k != "getr" && k != "keys") {
+					outcome = append(outcome, op)
+				}
+			}
+			if porcupine.CheckOperationsTimeout(linModel, outcome, linTimeout()) == porcupine.Ok {
+				return &Violation{Class: "lin-illegal", Signature: "C06|lin-illegal|shared-enders-visibility", Detail: "two clients ended one transaction at the same time; the outcome is consistent, but the reads made meanwhile have no place in any order of the calls (a Rollback answered 'nothing to do' before the concurrent Commit's writes were visible)"}
+			}
+			return &Violation{Class: "lin-illegal", Signature: "C06|lin-illegal|shared-enders-outcome", Detail: "two clients ended one transaction at the same time and the results of the calls together with what is in place afterwards fit no order of the calls"}
+		}
 		// classification only (both are violations): is GetKeys alone to blame?
 		var noKeys []porcupine.Operation
 		for _, op := range ops {
